@@ -155,6 +155,27 @@ static void do_line(char *work, const char *orig) {
 		printf("%d ", res);
 		if (res == KSI_OK) puthex(stdout, buf, len); else putchar('-');
 		KSI_TLV_free(t); free(buf); free(b);
+	} else if (n == 2 && strcmp(w[0], "serd") == 0) {
+		/* KSI_TLV_serialize (its own buffer), and the serialization of a clone */
+		KSI_TLV *t, *c = NULL; unsigned char *o1 = NULL, *o2 = NULL; size_t l1 = 0, l2 = 0; int r1, r2;
+		pp = w[1]; t = parse_tlv();
+		if (t == NULL) { printf("BUILD-FAILED"); return; }
+		r1 = KSI_TLV_serialize(t, &o1, &l1);
+		printf("%d ", r1); if (r1 == KSI_OK) puthex(stdout, o1, l1); else putchar('-');
+		r2 = KSI_TLV_clone(t, &c);
+		if (r2 == KSI_OK) r2 = KSI_TLV_serialize(c, &o2, &l2);
+		printf(" C%d:%d", r2, (r2 == KSI_OK && r1 == KSI_OK && l1 == l2 && !memcmp(o1, o2, l1)) ? 1 : 0);
+		KSI_free(o1); KSI_free(o2); KSI_TLV_free(c); KSI_TLV_free(t);
+	} else if (n == 3 && strcmp(w[0], "elserp") == 0) {
+		/* the payload alone (KSI_TLV_OPT_NO_HEADER) */
+		KSI_TlvElement *t; size_t room = (size_t)strtoull(w[2], NULL, 10), len = 0; int res;
+		unsigned char *buf = (unsigned char *)malloc(room ? room : 1);
+		pp = w[1]; t = parse_el();
+		if (t == NULL) { printf("BUILD-FAILED"); free(buf); return; }
+		res = KSI_TlvElement_serialize(t, buf, room, &len, KSI_TLV_OPT_NO_HEADER);
+		printf("%d ", res);
+		if (res == KSI_OK) puthex(stdout, buf, len); else putchar('-');
+		KSI_TlvElement_free(t); free(buf);
 	} else if (n == 3 && strcmp(w[0], "elser") == 0) {
 		KSI_TlvElement *t; size_t room = (size_t)strtoull(w[2], NULL, 10), len = 0; int res;
 		unsigned char *buf = (unsigned char *)malloc(room ? room : 1);
@@ -236,7 +257,7 @@ static void do_line(char *work, const char *orig) {
 		printf("%d ", res);
 		if (res == KSI_OK) dump_el(e, depth); else putchar('-');
 		KSI_TlvElement_free(e); free(x); free(b);
-	} else if ((n == 4 && strcmp(w[0], "elremove") == 0) || (n == 3 && strcmp(w[0], "elset") == 0)) {
+	} else if ((n == 4 && strcmp(w[0], "elremove") == 0) || (n == 3 && strcmp(w[0], "elset") == 0) || (n == 4 && strcmp(w[0], "elseto") == 0)) {
 		size_t len; unsigned char *b = unhex(w[1], &len);
 		unsigned char *x = (unsigned char *)malloc(len);
 		KSI_TlvElement *e = NULL, *out = NULL, *child = NULL; int res;
@@ -246,6 +267,12 @@ static void do_line(char *work, const char *orig) {
 		if (res != KSI_OK) { printf("PARSE-FAILED-%d", res); free(x); free(b); return; }
 		if (w[0][2] == 'r') {
 			res = KSI_TlvElement_removeElement(e, (unsigned)strtoul(w[2], NULL, 10), atoi(w[3]) ? &out : NULL);
+		} else if (!strcmp(w[0], "elseto")) {
+			/* a sub element given its value through the typed setter */
+			size_t vl; unsigned char *vb = unhex(w[3], &vl); KSI_OctetString *os = NULL;
+			KSI_OctetString_new(ctx, vb, vl, &os); free(vb);
+			res = KSI_TlvElement_setOctetString(e, (unsigned)strtoul(w[2], NULL, 10), os);
+			KSI_OctetString_free(os);
 		} else {
 			size_t cl; unsigned char *cb = unhex(w[2], &cl);
 			cx = (unsigned char *)malloc(cl); memcpy(cx, cb, cl); free(cb);
@@ -259,9 +286,44 @@ static void do_line(char *work, const char *orig) {
 			int r2 = KSI_TlvElement_serialize(e, buf, 70000, &sl, 0);
 			printf("%d ", r2);
 			if (r2 == KSI_OK) puthex(stdout, buf, sl); else putchar('-');
+			if (r2 == KSI_OK) {
+				/* the element is then given its own copy of its octets: what it serializes to must stay the same */
+				size_t s2 = 0; unsigned char *buf2 = (unsigned char *)malloc(70000);
+				int r3 = KSI_TlvElement_detach(e);
+				if (r3 == KSI_OK) r3 = KSI_TlvElement_serialize(e, buf2, 70000, &s2, 0);
+				printf(" T%d:%d", r3, (r3 == KSI_OK && s2 == sl && !memcmp(buf, buf2, sl)) ? 1 : 0);
+				free(buf2);
+			}
 			free(buf);
 		} else printf("- -");
 		KSI_TlvElement_free(out); KSI_TlvElement_free(child); KSI_TlvElement_free(e); free(cx); free(x); free(b);
+	} else if (n == 5 && strcmp(w[0], "elset2") == 0) {
+		/* a value set inside a sub element (found by tag), two levels down: the outer element serialized, given its own copy of its
+		 * octets (detach), serialized again */
+		size_t len; unsigned char *b = unhex(w[1], &len); unsigned char *x = (unsigned char *)malloc(len);
+		KSI_TlvElement *e = NULL, *mid = NULL; int res; size_t vl; unsigned char *vb = unhex(w[4], &vl); KSI_OctetString *os = NULL;
+		memcpy(x, b, len);
+		res = KSI_TlvElement_parse(x, len, &e);
+		if (res != KSI_OK) { printf("PARSE-FAILED-%d", res); free(x); free(b); free(vb); return; }
+		res = KSI_TlvElement_getElement(e, (unsigned)strtoul(w[2], NULL, 10), &mid);
+		if (res != KSI_OK || mid == NULL) { printf("NOMID-%d", res); KSI_TlvElement_free(e); free(x); free(b); free(vb); return; }
+		KSI_OctetString_new(ctx, vb, vl, &os);
+		res = KSI_TlvElement_setOctetString(mid, (unsigned)strtoul(w[3], NULL, 10), os);
+		printf("%d ", res);
+		if (res == KSI_OK) {
+			size_t sl = 0, s2 = 0; unsigned char *buf = (unsigned char *)malloc(70000), *buf2 = (unsigned char *)malloc(70000);
+			int r2 = KSI_TlvElement_serialize(e, buf, 70000, &sl, 0);
+			printf("%d ", r2);
+			if (r2 == KSI_OK) {
+				int r3;
+				puthex(stdout, buf, sl);
+				r3 = KSI_TlvElement_detach(e);
+				if (r3 == KSI_OK) r3 = KSI_TlvElement_serialize(e, buf2, 70000, &s2, 0);
+				printf(" T%d:%d", r3, (r3 == KSI_OK && s2 == sl && !memcmp(buf, buf2, sl)) ? 1 : 0);
+			} else putchar('-');
+			free(buf); free(buf2);
+		} else printf("- -");
+		KSI_OctetString_free(os); KSI_TlvElement_free(mid); KSI_TlvElement_free(e); free(x); free(b); free(vb);
 	} else {
 		printf("UNKNOWN-OP");
 	}
